@@ -104,3 +104,22 @@ PROPS["C03"]["allow_axiom_regex"] = r"^Bch\.Proofs\.C03Enum\.(cashaddr|bech32)_s
 PROPS["C03"]["level_note"] = ("Trusted: Lean kernel + propext/Classical.choice/Quot.sound, PLUS the Lean compiler/runtime for exactly two facts "
     "(Bch.Proofs.C03Enum.cashaddr_slices / bech32_slices, `native_decide`: every set of <=5 of 112 (resp. <=4 of 89) symbol positions has GF(2)-independent syndrome columns); "
     "everything else (linearity, soundness of the search, the lift to the decoders) is kernel-only. The probed syndrome tables of the real code are tied to the model by Tie/Addr and Tie/Bech32.")
+
+# ---- final level texts (proof status as delivered; DESIGN.md section 6/9)
+PROPS["C03"]["level_text"] = ("Kernel-checked linearity of both polymod step functions, soundness of an XOR-basis search (checkIndep_sound) and the lift to the byte-level decoders "
+    "(C03_cashaddr: any 1-5 replaced bytes of the payload part are rejected; C03_bech32: 1-4, hrp containing a letter, replacement != '1'; distance corollaries, bounds attained); "
+    "the two finite enumerations (112 positions/5 errors, 89/4) are evaluated by compiled code (native_decide, declared). Every run ties the real code's probed syndrome tables to the model and "
+    "sends chosen-syndrome words and random/foreign substitutions through the real decoders.")
+PROPS["C07"]["level_text"] = ("Full proofs: Base58 bijection (Nat.digits), Base58Check accept-iff and canonicity, bech32 verify/create, round trip, canonical form, exact acceptance condition and seven rejection "
+    "theorems, ConvertBits for all widths and the 8<->5 round trip with padding rules, purity on a Go slice/heap model (frame theorems; the pre-fix aliasing is the negative witness). "
+    "Every run compares the model with the real code on exhaustive small scopes, random and near-valid inputs, multi-byte look-alikes, and probes argument memory with spare-capacity canaries.")
+PROPS["C10"]["level_text"] = ("Full proofs over any lawful filter: exact match-iff, update characterisation, soundness and completeness of the block scan incl. spenders in any order (CTOR), "
+    "refinement of the repaired scan to the original scan (C10_scan_refines_ref), polynomial step bound; instantiated for the real bloom filter via C09. Every run replays real wire blocks "
+    "(spend graphs x script classes x flags x orders) through GetMatchedIndices and both merkle-block builders and also evaluates the reference scan.")
+PROPS["C17"]["level_text"] = ("Full proofs over an exact-integer model of binary64: the rounding routine is correctly rounded in all ranges (roundScaled_isRN), mul/div/ofInt, math.Round, Pow10 exactness; "
+    "NewAmount nearest/odd/monotone/total, ToBCH round trip for all |a|<=2.1e15, ToUnit correctly rounded, and C17_format (the printed decimal denotes exactly a*10^-(u+8) for -8<=u<=12, via a general "
+    "specification of the shortest-digits search). Every run compares bit patterns and strings with the Go runtime on tie/binade/neighbour-directed inputs and evaluates the predicates exactly.")
+for _k in PROPS:
+    PROPS[_k].setdefault("technique", "Lean 4 kernel-checked theorems about a hand-written executable model; model tied to the Go code on every run by differential correspondence (Go harness vs compiled Lean driver) and by tie theorems over facts regenerated from the source")
+PROPS["C20"]["technique"] = "Lean 4 theorems over an interleaving semantics instantiated with lock skeletons extracted from the Go source on every run (go/ast) and checked by kernel evaluation; race-detector stress as supporting search"
+PROPS["C03"]["technique"] = "Lean 4: kernel-checked GF(2)-linearity + verified XOR-basis search lifted to the decoders; two finite enumerations by native_decide; probed syndrome tables of the real code tied by kernel evaluation"
